@@ -207,6 +207,49 @@ def decided_outcome(summary):
     return ("falloff", None)
 
 
+def raising_handlers(fnode):
+    """Except-handler statements of a function that can themselves raise: inside a handler of a total predicate only constant
+    returns, pass, and logging calls whose arguments are evaluated without calls (names, constants, attributes, the exception
+    object, %-style lazy arguments, f-strings over plain names / the exception with !r / !s) are inert. Returns [(node, why)]."""
+    import ast
+    out = []
+
+    def inert_expr(e, exc_name):
+        if isinstance(e, (ast.Constant, ast.Name)):
+            return True
+        if isinstance(e, ast.Attribute):
+            return inert_expr(e.value, exc_name)
+        if isinstance(e, ast.JoinedStr):
+            return all(isinstance(v, ast.Constant) or (isinstance(v, ast.FormattedValue) and isinstance(v.value, ast.Name) and (v.value.id == exc_name or v.conversion in (114, 115, 97, -1)) and
+                                                       (v.format_spec is None)) for v in e.values)
+        if isinstance(e, ast.Call) and isinstance(e.func, ast.Name) and e.func.id in ("str", "repr", "type") and len(e.args) == 1 and isinstance(e.args[0], ast.Name):
+            return True
+        if isinstance(e, (ast.Tuple, ast.List)):
+            return all(inert_expr(x, exc_name) for x in e.elts)
+        return False
+
+    for node in ast.walk(fnode):
+        if not isinstance(node, ast.ExceptHandler):
+            continue
+        for st in node.body:
+            for sub in ast.walk(st):
+                if isinstance(sub, ast.Call):
+                    f = sub.func
+                    is_log = isinstance(f, ast.Attribute) and f.attr in ("debug", "info", "warning", "error", "exception", "critical", "log") and \
+                        isinstance(f.value, (ast.Name, ast.Attribute))
+                    if is_log and all(inert_expr(a, node.name) for a in sub.args) and all(inert_expr(k.value, node.name) for k in sub.keywords):
+                        break_out = True
+                        continue
+                    if isinstance(f, ast.Name) and f.id in ("str", "repr", "type") and len(sub.args) == 1 and isinstance(sub.args[0], ast.Name):
+                        continue
+                    out.append((sub, "the handler evaluates `%s`, which can raise" % ast.unparse(sub)[:80]))
+                elif isinstance(sub, ast.Subscript):
+                    out.append((sub, "the handler evaluates `%s`, which can raise" % ast.unparse(sub)[:80]))
+                elif isinstance(sub, ast.Raise):
+                    out.append((sub, "the handler re-raises"))
+    return out
+
+
 def strict_outcome(summary):
     """For fully scripted scenarios: the first exit whose guard is not False decides; if that guard is not True the scenario
     asked the code a question the script does not answer -- ("undecided", that guard)."""
